@@ -63,6 +63,17 @@ PROPS = {
             "C08_example_missing_argument": [],
             "C08_example_call_main_not_found": [],
             "C08_example_call_static": [],
+            "C08_program_call_layout": [],
+            "C08_call_pair_in_program": [],
+            "C08_call_card_executes_designated_body": [],
+            "C08_function_body_starts_without_locals": [],
+            "C08_card_keeps_scopes": [],
+            "C08_closure_body_starts_without_locals": [],
+            "C08_param_binding_compiled": [],
+            "C08_example_nested_call_pairs": [],
+            "C08_example_nested_param_hyps": [],
+            "C08_example_nested_run": [],
+            "C08_example_card_keeps_scopes": [],
         },
         n_quick=320, n_thorough=3000,
         gates=["obs.ran", "obs.err.InvalidJump", "obs.err.SuperLimitReached", "obs.err.DuplicateModule", "obs.err.NoMain",
